@@ -199,8 +199,7 @@ static void walk(const DOMNode* x, const RN* r, const std::string& path, Ctx& c,
     if (r->type == RN_ATTR || r->type == RN_TEXT) field(c, ci, path, "nodeValue", Opt(r->value), opt16(x->getNodeValue()));
     // KNOWN_DEFECTS: lookup*/isDefaultNamespace on a DOMDocument without a document element dereference a null pointer
     // (DOMNodeImpl.cpp: getDocumentElement()->...).  Skipped unless strict (witness space), where it is pinned as a crash.
-    if (r->type == RN_DOC && r->kids.empty() && !g_strict) c.count("known_defect_hits:document-without-root-lookup-null-deref");
-    else lookups(x, r, path, c, ci);
+    lookups(x, r, path, c, ci);   // (documents without a root were skipped here while the null dereference in lookup* existed; repaired, so no guard)
     if (r->type == RN_ELEM) {
         DOMNamedNodeMap* am = x->getAttributes();
         XMLSize_t n = am ? am->getLength() : 0;
